@@ -93,3 +93,182 @@ package ast
 //@   at call ast.operandString#2 after set o3 = res
 //@   at call ast.Node.String#* forbid[operands-printed-through-operandString;C17] false
 //@   ensures[question-mark-and-colon-between-spaces;C17] len(result) == len(o1) + len(o2) + len(o3) + 6 && result[len(o1)] == ' ' && result[len(o1)+1] == '?' && result[len(o1)+2] == ' ' && result[len(o1)+3+len(o2)] == ' ' && result[len(o1)+4+len(o2)] == ':' && result[len(o1)+5+len(o2)] == ' '
+
+// ---------------------------------------------------------------------------
+// C01 / C07: the tree passes (globals, data references, message extraction)
+// reach sub-nodes only through Children(): each Children method returns exactly
+// the node's sub-node fields, in order.
+//@ func (*TemplateNode).Children
+//@   props C01 C07
+//@   nosafety
+//@   pure
+//@   ensures[children-are-the-sub-node-fields;C01,C07] len(result) == 1 && typeis(result[0], *ListNode) && unbox(result[0], *ListNode) == n.Body
+//@ func (*CssNode).Children
+//@   props C01 C07
+//@   nosafety
+//@   pure
+//@   ensures[children-are-the-sub-node-fields;C01,C07] len(result) == 1 && result[0] == n.Expr
+//@ func (*LogNode).Children
+//@   props C01 C07
+//@   nosafety
+//@   pure
+//@   ensures[children-are-the-sub-node-fields;C01,C07] len(result) == 1 && result[0] == n.Body
+//@ func (*LetValueNode).Children
+//@   props C01 C07
+//@   nosafety
+//@   pure
+//@   ensures[children-are-the-sub-node-fields;C01,C07] len(result) == 1 && result[0] == n.Expr
+//@ func (*LetContentNode).Children
+//@   props C01 C07
+//@   nosafety
+//@   pure
+//@   ensures[children-are-the-sub-node-fields;C01,C07] len(result) == 1 && result[0] == n.Body
+//@ func (*MsgPlaceholderNode).Children
+//@   props C01 C07
+//@   nosafety
+//@   pure
+//@   ensures[children-are-the-sub-node-fields;C01,C07] len(result) == 1 && result[0] == n.Body
+//@ func (*MsgPluralCaseNode).Children
+//@   props C01 C07
+//@   nosafety
+//@   pure
+//@   ensures[children-are-the-sub-node-fields;C01,C07] len(result) == 1 && result[0] == n.Body
+//@ func (*CallParamValueNode).Children
+//@   props C01 C07
+//@   nosafety
+//@   pure
+//@   ensures[children-are-the-sub-node-fields;C01,C07] len(result) == 1 && result[0] == n.Value
+//@ func (*CallParamContentNode).Children
+//@   props C01 C07
+//@   nosafety
+//@   pure
+//@   ensures[children-are-the-sub-node-fields;C01,C07] len(result) == 1 && result[0] == n.Content
+//@ func (*IfCondNode).Children
+//@   props C01 C07
+//@   nosafety
+//@   pure
+//@   ensures[children-are-the-sub-node-fields;C01,C07] len(result) == 2 && result[0] == n.Cond && result[1] == n.Body
+//@ func (*DataRefExprNode).Children
+//@   props C01 C07
+//@   nosafety
+//@   pure
+//@   ensures[children-are-the-sub-node-fields;C01,C07] len(result) == 1 && result[0] == n.Arg
+//@ func (*NotNode).Children
+//@   props C01 C07
+//@   nosafety
+//@   pure
+//@   ensures[children-are-the-sub-node-fields;C01,C07] len(result) == 1 && result[0] == n.Arg
+//@ func (*NegateNode).Children
+//@   props C01 C07
+//@   nosafety
+//@   pure
+//@   ensures[children-are-the-sub-node-fields;C01,C07] len(result) == 1 && result[0] == n.Arg
+//@ func (*BinaryOpNode).Children
+//@   props C01 C07
+//@   nosafety
+//@   pure
+//@   ensures[children-are-the-sub-node-fields;C01,C07] len(result) == 2 && result[0] == n.Arg1 && result[1] == n.Arg2
+//@ func (*TernNode).Children
+//@   props C01 C07
+//@   nosafety
+//@   pure
+//@   ensures[children-are-the-sub-node-fields;C01,C07] len(result) == 3 && result[0] == n.Arg1 && result[1] == n.Arg2 && result[2] == n.Arg3
+//@ func (SoyFileNode).Children
+//@   props C01 C07
+//@   nosafety
+//@   pure
+//@   ensures[children-are-the-sub-node-list;C01,C07] sameslice(result, n.Body)
+//@ func (*ListNode).Children
+//@   props C01 C07
+//@   nosafety
+//@   pure
+//@   ensures[children-are-the-sub-node-list;C01,C07] sameslice(result, l.Nodes)
+//@ func (*PrintDirectiveNode).Children
+//@   props C01 C07
+//@   nosafety
+//@   pure
+//@   ensures[children-are-the-sub-node-list;C01,C07] sameslice(result, n.Args)
+//@ func (*FunctionNode).Children
+//@   props C01 C07
+//@   nosafety
+//@   pure
+//@   ensures[children-are-the-sub-node-list;C01,C07] sameslice(result, n.Args)
+//@ func (*ListLiteralNode).Children
+//@   props C01 C07
+//@   nosafety
+//@   pure
+//@   ensures[children-are-the-sub-node-list;C01,C07] sameslice(result, n.Items)
+//@ func (*DataRefNode).Children
+//@   props C01 C07
+//@   nosafety
+//@   pure
+//@   ensures[children-are-the-sub-node-list;C01,C07] sameslice(result, n.Access)
+//@ func (*PrintNode).Children
+//@   props C01 C07
+//@   nosafety
+//@   noterm
+//@   pure
+//@   ensures[children-are-the-argument-then-the-directives;C01,C07] len(result) == 1 + len(n.Directives) && result[0] == n.Arg && forall(j, 0, len(n.Directives), typeis(result[1+j], *PrintDirectiveNode) && unbox(result[1+j], *PrintDirectiveNode) == n.Directives[j])
+//@   loop 0
+//@     invariant[built-so-far;C01,C07] len(nodes) == rangeindex + 2 && rangeindex + 1 <= len(n.Directives) && fresh(nodes) && nodes[0] == n.Arg && forall(j, 0, rangeindex + 1, typeis(nodes[1+j], *PrintDirectiveNode) && unbox(nodes[1+j], *PrintDirectiveNode) == n.Directives[j])
+//@ func (*SoyDocNode).Children
+//@   props C01 C07
+//@   nosafety
+//@   noterm
+//@   pure
+//@   ensures[children-are-the-params;C01,C07] len(result) == len(n.Params) && forall(j, 0, len(n.Params), typeis(result[j], *SoyDocParamNode) && unbox(result[j], *SoyDocParamNode) == n.Params[j])
+//@   loop 0
+//@     invariant[built-so-far;C01,C07] len(nodes) == rangeindex + 1 && rangeindex + 1 <= len(n.Params) && fresh(nodes) && forall(j, 0, rangeindex + 1, typeis(nodes[j], *SoyDocParamNode) && unbox(nodes[j], *SoyDocParamNode) == n.Params[j])
+//@ func (*IfNode).Children
+//@   props C01 C07
+//@   nosafety
+//@   noterm
+//@   pure
+//@   ensures[children-are-the-branches;C01,C07] len(result) == len(n.Conds) && forall(j, 0, len(n.Conds), typeis(result[j], *IfCondNode) && unbox(result[j], *IfCondNode) == n.Conds[j])
+//@   loop 0
+//@     invariant[built-so-far;C01,C07] len(nodes) == rangeindex + 1 && rangeindex + 1 <= len(n.Conds) && fresh(nodes) && forall(j, 0, rangeindex + 1, typeis(nodes[j], *IfCondNode) && unbox(nodes[j], *IfCondNode) == n.Conds[j])
+//@ func (*SwitchNode).Children
+//@   props C01 C07
+//@   nosafety
+//@   noterm
+//@   pure
+//@   ensures[children-are-the-value-then-the-cases;C01,C07] len(result) == 1 + len(n.Cases) && result[0] == n.Value && forall(j, 0, len(n.Cases), typeis(result[1+j], *SwitchCaseNode) && unbox(result[1+j], *SwitchCaseNode) == n.Cases[j])
+//@   loop 0
+//@     invariant[built-so-far;C01,C07] len(nodes) == rangeindex + 2 && rangeindex + 1 <= len(n.Cases) && fresh(nodes) && nodes[0] == n.Value && forall(j, 0, rangeindex + 1, typeis(nodes[1+j], *SwitchCaseNode) && unbox(nodes[1+j], *SwitchCaseNode) == n.Cases[j])
+//@ func (*SwitchCaseNode).Children
+//@   props C01 C07
+//@   nosafety
+//@   noterm
+//@   pure
+//@   ensures[children-are-the-body-then-the-values;C01,C07] len(result) == 1 + len(n.Values) && result[0] == n.Body && forall(j, 0, len(n.Values), result[1+j] == n.Values[j])
+//@   loop 0
+//@     invariant[built-so-far;C01,C07] len(nodes) == rangeindex + 2 && rangeindex + 1 <= len(n.Values) && fresh(nodes) && base(n.Values) == old(base(n.Values)) && (len(nodes) == 0 || base(nodes) >= old(allocmark())) && nodes[0] == n.Body && forall(j, 0, rangeindex + 1, nodes[1+j] == n.Values[j])
+//@ func (*CallNode).Children
+//@   props C01 C07
+//@   nosafety
+//@   noterm
+//@   pure
+//@   ensures[children-are-the-data-then-the-params;C01,C07] len(result) == 1 + len(n.Params) && result[0] == n.Data && forall(j, 0, len(n.Params), result[1+j] == n.Params[j])
+//@   loop 0
+//@     invariant[built-so-far;C01,C07] len(nodes) == rangeindex + 2 && rangeindex + 1 <= len(n.Params) && fresh(nodes) && base(n.Params) == old(base(n.Params)) && (len(nodes) == 0 || base(nodes) >= old(allocmark())) && nodes[0] == n.Data && forall(j, 0, rangeindex + 1, nodes[1+j] == n.Params[j])
+//@ func (*ForNode).Children
+//@   props C01 C07
+//@   nosafety
+//@   pure
+//@   ensures[children-are-list-body-and-ifempty;C01,C07] len(result) >= 2 && result[0] == n.List && result[1] == n.Body && (n.IfEmpty != nil ==> len(result) == 3 && result[2] == n.IfEmpty) && (n.IfEmpty == nil ==> len(result) == 2)
+//@ func (*MsgPluralNode).Children
+//@   props C01 C07
+//@   nosafety
+//@   noterm
+//@   pure
+//@   ensures[children-are-value-cases-default;C01,C07] len(result) == 2 + len(n.Cases) && result[0] == n.Value && forall(j, 0, len(n.Cases), typeis(result[1+j], *MsgPluralCaseNode) && unbox(result[1+j], *MsgPluralCaseNode) == n.Cases[j])
+//@   loop 0
+//@     invariant[built-so-far;C01,C07] len(children) == rangeindex + 2 && rangeindex + 1 <= len(n.Cases) && fresh(children) && children[0] == n.Value && forall(j, 0, rangeindex + 1, typeis(children[1+j], *MsgPluralCaseNode) && unbox(children[1+j], *MsgPluralCaseNode) == n.Cases[j])
+//@ func (*MsgNode).Children
+//@   props C01 C07
+//@   nosafety
+//@   pure
+//@   ghost r []Node = nil
+//@   at call ast.ParentNode.Children#0 assert[children-of-the-body;C01,C07] arg0 == n.Body
+//@   at call ast.ParentNode.Children#0 after set r = res
+//@   ensures[children-are-the-bodys-children;C01,C07] sameslice(result, r)
